@@ -31,21 +31,41 @@ variable {F : Type}
 
 /-! ## 1. `parse_line` inverts rendering -/
 
-/-- For every delimiter (other than NUL and the quote), every list of fields free of NUL / CR /
-    LF and **every** choice of the fields to quote that includes the ones that need it, parsing
-    the rendered line gives the fields back (trimmed when `trim_ws` is on), also when the line
-    ends with the CR of a CR LF pair. -/
+/-- For every delimiter (other than NUL and the quote), both quoting styles (`REMOVE_QUOTES`,
+    `KEEP_QUOTES`), `trim_ws` on or off, every list of fields free of NUL / CR / LF and **every**
+    choice of the fields to quote that includes the ones that need it, parsing the rendered line
+    gives the fields back – `fieldSeen`: between the quotes they were written with when quotes are
+    kept, `fieldOut`: trimmed when `trim_ws` is on –, also when the line ends with the CR of a CR LF
+    pair. -/
+theorem parse_render_dialect (dl : Dialect) (eol : Str) (fields : List (Str × Bool))
+    (h0 : dl.delim ≠ '\x00') (hq : dl.delim ≠ QUOTE) (heol : EolOK dl.delim eol) (hne : fields ≠ [])
+    (hclean : ∀ p ∈ fields, Clean p.1) (hquoted : ∀ p ∈ fields, needsQuote dl.delim p.1 = true → p.2 = true) :
+    parseLine dl (renderLine dl.delim fields ++ eol) =
+      fields.map (fun p => fieldOut dl (fieldSeen dl p.1 p.2)) := by
+  have := go_line dl h0 hq eol heol fields [] hne
+    (fun p hp => ⟨hclean p hp, fun h2 => by
+      cases hn : needsQuote dl.delim p.1 with
+      | false => rfl
+      | true => have := hquoted p hp hn; rw [h2] at this; cases this⟩)
+  simpa [parseLine] using this
+
+/-- the default quoting style (`REMOVE_QUOTES`): the fields come back as they were -/
 theorem parse_render (d : Char) (trimWs : Bool) (eol : Str) (fields : List (Str × Bool))
     (h0 : d ≠ '\x00') (hq : d ≠ QUOTE) (heol : EolOK d eol) (hne : fields ≠ [])
     (hclean : ∀ p ∈ fields, Clean p.1) (hquoted : ∀ p ∈ fields, needsQuote d p.1 = true → p.2 = true) :
     parseLine { delim := d, trimWs := trimWs } (renderLine d fields ++ eol) =
       fields.map (fun p => if trimWs then trim p.1 else p.1) := by
-  have := go_line { delim := d, trimWs := trimWs } h0 hq eol heol fields [] hne (fun _ _ _ => rfl)
-    (fun p hp => ⟨hclean p hp, fun h2 => by
-      cases hn : needsQuote d p.1 with
-      | false => rfl
-      | true => have := hquoted p hp hn; rw [h2] at this; cases this⟩)
-  simpa [parseLine, fieldOut] using this
+  have := parse_render_dialect { delim := d, trimWs := trimWs } eol fields h0 hq heol hne hclean hquoted
+  simpa [fieldOut, fieldSeen] using this
+
+/-- `KEEP_QUOTES`: a quoted field comes back between its quotes (inner quotes un-doubled) -/
+theorem parse_render_keep (d : Char) (eol : Str) (fields : List (Str × Bool))
+    (h0 : d ≠ '\x00') (hq : d ≠ QUOTE) (heol : EolOK d eol) (hne : fields ≠ [])
+    (hclean : ∀ p ∈ fields, Clean p.1) (hquoted : ∀ p ∈ fields, needsQuote d p.1 = true → p.2 = true) :
+    parseLine { delim := d, keepQuotes := true } (renderLine d fields ++ eol) =
+      fields.map (fun p => if p.2 then QUOTE :: (p.1 ++ [QUOTE]) else p.1) := by
+  have := parse_render_dialect { delim := d, keepQuotes := true } eol fields h0 hq heol hne hclean hquoted
+  simpa [fieldOut, fieldSeen] using this
 
 /-- "quote iff needed" -/
 theorem parse_render_minimal (d : Char) (fields : List Str) (h0 : d ≠ '\x00') (hq : d ≠ QUOTE)
@@ -135,43 +155,43 @@ theorem prep_none (r : List Str) : prep none r = [] :: r := rfl
     the label otherwise – with the label recoverable from the id); the columns are named by the
     header (output first) and carry the domains of the first data row. -/
 theorem rows_faithful (cfg : Cfg) (o : NumOracle F) (d : Char) (eol : Str) (t : Table) (p : Params)
-    (hd : p.delim = d) (hh : p.header = some t.header.isSome) (hf : p.filter = fun _ => true)
+    (hd : p.delim = d) (hh : p.header = some t.header.isSome) (hf : p.hook = some)
     (hwf : WellFormed d eol t) (hk : ∀ k, p.outIdx = some k → k < t.row0.length)
-    (hty : Typed o p.outIdx p.trimWs t) :
+    (hty : Typed o p.outIdx p.trimWs p.keepQuotes t) :
     ∃ df, readCsv cfg o p (t.render d eol) = .ok df ∧
       df.examples.length = t.rows.length ∧
       (∀ pr ∈ t.rows.zip df.examples,
-        pr.2.input = inputVals o (kinds o true (prep p.outIdx (fieldsOf p.trimWs t.row0))).tail
-                       (prep p.outIdx (fieldsOf p.trimWs pr.1)).tail) ∧
-      (Regr o (kinds o true (prep p.outIdx (fieldsOf p.trimWs t.row0)))
-          (t.rows.map (fun r => prep p.outIdx (fieldsOf p.trimWs r))) →
+        pr.2.input = inputVals o (kinds o true (prep p.outIdx (fieldsOf p.trimWs p.keepQuotes t.row0))).tail
+                       (prep p.outIdx (fieldsOf p.trimWs p.keepQuotes pr.1)).tail) ∧
+      (Regr o (kinds o true (prep p.outIdx (fieldsOf p.trimWs p.keepQuotes t.row0)))
+          (t.rows.map (fun r => prep p.outIdx (fieldsOf p.trimWs p.keepQuotes r))) →
         df.classes = [] ∧
         ∀ pr ∈ t.rows.zip df.examples,
-          pr.2.output = if outDom (kinds o true (prep p.outIdx (fieldsOf p.trimWs t.row0))) = .void then .void
-            else cellVal o (outDom (kinds o true (prep p.outIdx (fieldsOf p.trimWs t.row0))))
-                   ((prep p.outIdx (fieldsOf p.trimWs pr.1)).headD [])) ∧
-      (Classif o (kinds o true (prep p.outIdx (fieldsOf p.trimWs t.row0)))
-          (t.rows.map (fun r => prep p.outIdx (fieldsOf p.trimWs r))) →
+          pr.2.output = if outDom (kinds o true (prep p.outIdx (fieldsOf p.trimWs p.keepQuotes t.row0))) = .void then .void
+            else cellVal o (outDom (kinds o true (prep p.outIdx (fieldsOf p.trimWs p.keepQuotes t.row0))))
+                   ((prep p.outIdx (fieldsOf p.trimWs p.keepQuotes pr.1)).headD [])) ∧
+      (Classif o (kinds o true (prep p.outIdx (fieldsOf p.trimWs p.keepQuotes t.row0)))
+          (t.rows.map (fun r => prep p.outIdx (fieldsOf p.trimWs p.keepQuotes r))) →
         ClassInv df.classes ∧
         ∀ pr ∈ t.rows.zip df.examples, ∃ id : Nat,
           pr.2.output = .int id ∧
-          lookup df.classes (trim ((prep p.outIdx (fieldsOf p.trimWs pr.1)).headD [])) = some id ∧
-          className df.classes id = trim ((prep p.outIdx (fieldsOf p.trimWs pr.1)).headD [])) ∧
+          lookup df.classes (trim ((prep p.outIdx (fieldsOf p.trimWs p.keepQuotes pr.1)).headD [])) = some id ∧
+          className df.classes id = trim ((prep p.outIdx (fieldsOf p.trimWs p.keepQuotes pr.1)).headD [])) ∧
       skel df.cols =
-        (colNames p.outIdx (t.header.map (fieldsOf p.trimWs)) (prep p.outIdx (fieldsOf p.trimWs t.row0)).length).zip
-          (kinds o true (prep p.outIdx (fieldsOf p.trimWs t.row0))) := by
+        (colNames p.outIdx (t.header.map (fieldsOf p.trimWs p.keepQuotes)) (prep p.outIdx (fieldsOf p.trimWs p.keepQuotes t.row0)).length).zip
+          (kinds o true (prep p.outIdx (fieldsOf p.trimWs p.keepQuotes t.row0))) := by
   have hd0 : p.delim ≠ '\x00' := by rw [hd]; exact hwf.d0
-  have hrecs := records_of_table d eol t p.trimWs p.filter hwf
-  have hlines : (t.lines.map (fieldsOf p.trimWs)).filter p.filter =
-      (t.header.map (fieldsOf p.trimWs)).toList ++ fieldsOf p.trimWs t.row0 :: t.rest.map (fieldsOf p.trimWs) := by
+  have hrecs := records_of_table d eol t p.trimWs p.keepQuotes p.hook hwf
+  have hlines : (t.lines.map (fieldsOf p.trimWs p.keepQuotes)).filterMap p.hook =
+      (t.header.map (fieldsOf p.trimWs p.keepQuotes)).toList ++ fieldsOf p.trimWs p.keepQuotes t.row0 :: t.rest.map (fieldsOf p.trimWs p.keepQuotes) := by
     rw [hf]
     cases hh' : t.header <;> simp [Table.lines, Table.rows, hh']
-  have hflen : ∀ l, (fieldsOf p.trimWs l).length = l.length := fun l => by simp [fieldsOf]
-  obtain ⟨df, hread, hex, hcl, hsk⟩ := readCsvRecs_faithful cfg o p.outIdx (t.header.map (fieldsOf p.trimWs))
-    (fieldsOf p.trimWs t.row0) (t.rest.map (fieldsOf p.trimWs))
+  have hflen : ∀ l, (fieldsOf p.trimWs p.keepQuotes l).length = l.length := fieldsOf_length _ _
+  obtain ⟨df, hread, hex, hcl, hsk⟩ := readCsvRecs_faithful cfg o p.outIdx (t.header.map (fieldsOf p.trimWs p.keepQuotes))
+    (fieldsOf p.trimWs p.keepQuotes t.row0) (t.rest.map (fieldsOf p.trimWs p.keepQuotes))
     (by
       intro r hr k hko
-      have : ∃ l ∈ t.lines, r = fieldsOf p.trimWs l := by
+      have : ∃ l ∈ t.lines, r = fieldsOf p.trimWs p.keepQuotes l := by
         cases hh' : t.header with
         | none =>
           simp only [hh', Option.map_none, Option.toList_none, List.nil_append, List.mem_cons, List.mem_map] at hr
@@ -203,11 +223,11 @@ theorem rows_faithful (cfg : Cfg) (o : NumOracle F) (d : Char) (eol : Str) (t : 
       · exact hty.rows t.row0 (by simp [Table.rows])
       · exact hty.rows l (by simp [Table.rows, hl]))
     (by simpa [Table.rows, Function.comp_def] using hty.cls)
-  have hrows' : (fieldsOf p.trimWs t.row0 :: t.rest.map (fieldsOf p.trimWs)).map (prep p.outIdx) =
-      t.rows.map (fun r => prep p.outIdx (fieldsOf p.trimWs r)) := by
+  have hrows' : (fieldsOf p.trimWs p.keepQuotes t.row0 :: t.rest.map (fieldsOf p.trimWs p.keepQuotes)).map (prep p.outIdx) =
+      t.rows.map (fun r => prep p.outIdx (fieldsOf p.trimWs p.keepQuotes r)) := by
     simp [Table.rows, Function.comp_def]
   rw [hrows'] at hex hcl
-  have hrok : ∀ r' ∈ t.rows.map (fun r => prep p.outIdx (fieldsOf p.trimWs r)), r' ≠ [] := by
+  have hrok : ∀ r' ∈ t.rows.map (fun r => prep p.outIdx (fieldsOf p.trimWs p.keepQuotes r)), r' ≠ [] := by
     intro r' hr'
     simp only [List.mem_map] at hr'
     obtain ⟨r, hr, rfl⟩ := hr'
@@ -219,12 +239,12 @@ theorem rows_faithful (cfg : Cfg) (o : NumOracle F) (d : Char) (eol : Str) (t : 
     have : t.row0.length = 0 := by simp at h1; omega
     exact hwf.width (List.length_eq_zero_iff.1 this)
   have hzip : ∀ pr ∈ t.rows.zip df.examples,
-      (prep p.outIdx (fieldsOf p.trimWs pr.1), pr.2) ∈
-        (t.rows.map (fun r => prep p.outIdx (fieldsOf p.trimWs r))).zip df.examples := by
+      (prep p.outIdx (fieldsOf p.trimWs p.keepQuotes pr.1), pr.2) ∈
+        (t.rows.map (fun r => prep p.outIdx (fieldsOf p.trimWs p.keepQuotes r))).zip df.examples := by
     intro pr hpr
     rw [List.zip_map_left]
     exact List.mem_map.2 ⟨pr, hpr, rfl⟩
-  have hisSome : (t.header.map (fieldsOf p.trimWs)).isSome = t.header.isSome := by cases t.header <;> rfl
+  have hisSome : (t.header.map (fieldsOf p.trimWs p.keepQuotes)).isSome = t.header.isSome := by cases t.header <;> rfl
   refine ⟨df, ?_, ?_, ?_, ?_, ?_, ?_⟩
   · unfold readCsv resolveDialect
     simp only [hh, Option.isNone_some, hd0, Bool.false_or, decide_false, Bool.false_eq_true, if_false,
@@ -322,35 +342,126 @@ theorem header_names (outIdx : Option Nat) (h : List Str) (n : Nat) :
     colNames outIdx (some h) n = (prep outIdx h).map trim ∧
     colNames outIdx none n = List.replicate n [] := ⟨rfl, rfl⟩
 
-/-- **filter_absent.**  Reading with a filter hook gives exactly what reading the table without
-    the rejected lines gives (the hook sees the parsed fields of every line, header included). -/
-theorem filter_absent (cfg : Cfg) (o : NumOracle F) (d : Char) (eol : Str) (t : Table) (p : Params)
-    (f : List Str → Bool) (lines' : List (List (Str × Bool)))
+/-- **hook_on_parsed_records** (filter_absent, general form, CSV).  For **every** byte string, every
+    parameter setting and every hook: the import is `read_csv`'s loop over the records the parser
+    delivers when no hook is installed, each handed to the hook – one by one, in file order, exactly as
+    parsed (the header line too; the output cell still in its place: the rotation is part of
+    `readCsvRecs`) –; what the hook rejects is absent, what it rewrites is read rewritten.  The
+    dialect does not depend on the hook. -/
+theorem hook_on_parsed_records (cfg : Cfg) (o : NumOracle F) (p : Params) (bytes : Str) :
+    resolveDialect cfg o p (splitLines bytes) = resolveDialect cfg o { p with hook := some } (splitLines bytes) ∧
+    readCsv cfg o p bytes =
+      readCsvRecs cfg o p.outIdx (resolveDialect cfg o p (splitLines bytes)).2
+        ((records { delim := (resolveDialect cfg o p (splitLines bytes)).1, trimWs := p.trimWs,
+                    keepQuotes := p.keepQuotes } some (splitLines bytes)).filterMap p.hook) := by
+  refine ⟨rfl, ?_⟩
+  unfold readCsv records
+  simp
+
+/-- **hook_absent.**  On a well-formed table: reading with a hook gives exactly what reading – without
+    a hook – any well-formed file gives whose rows are the records the hook returns (the hook sees the
+    parsed fields of every line, header included, before the output column is moved). -/
+theorem hook_absent (cfg : Cfg) (o : NumOracle F) (d : Char) (eol : Str) (t : Table) (p : Params)
+    (hook : Hook) (lines' : List (List (Str × Bool)))
     (hd : p.delim = d) (hh : p.header.isSome) (hwf : WellFormed d eol t)
-    (hl : lines' = t.lines.filter (fun l => f (fieldsOf p.trimWs l))) :
-    readCsv cfg o { p with filter := f } (t.render d eol) =
-    readCsv cfg o { p with filter := fun _ => true } (renderFile eol (lines'.map (renderLine d))) := by
+    (hne : ∀ l ∈ lines', l ≠ [])
+    (hclean : ∀ l ∈ lines', ∀ c ∈ l, Clean c.1 ∧ (c.2 = false → needsQuote d c.1 = false))
+    (hvis : ∀ l ∈ lines', isBlank (renderLine d l ++ eol) = false)
+    (hl : lines'.map (fieldsOf p.trimWs p.keepQuotes) =
+          (t.lines.map (fieldsOf p.trimWs p.keepQuotes)).filterMap hook) :
+    readCsv cfg o { p with hook := hook } (t.render d eol) =
+    readCsv cfg o { p with hook := some } (renderFile eol (lines'.map (renderLine d))) := by
   have hd0 : p.delim ≠ '\x00' := by rw [hd]; exact hwf.d0
-  have h1 := records_of_table d eol t p.trimWs f hwf
-  have hsub : ∀ l ∈ lines', l ∈ t.lines := by
-    intro l hl'; rw [hl] at hl'; exact (List.mem_filter.1 hl').1
-  have h2 := records_render { delim := d, trimWs := p.trimWs } rfl hwf.d0 hwf.dq hwf.dn eol hwf.eol_ok
-    (fun _ => true) lines'
-    (fun l hl' => by
-      intro h
-      have := hwf.rect l (hsub l hl')
-      rw [h] at this
-      exact hwf.width (List.length_eq_zero_iff.1 this.symm))
-    (fun l hl' => hwf.clean l (hsub l hl')) (fun l hl' => hwf.visible l (hsub l hl'))
+  have h1 := records_of_table d eol t p.trimWs p.keepQuotes hook hwf
+  have h2 := records_render { delim := d, trimWs := p.trimWs, keepQuotes := p.keepQuotes } hwf.d0 hwf.dq hwf.dn eol
+    hwf.eol_ok some lines' hne hclean hvis
   cases hp : p.header with
   | none => simp [hp] at hh
   | some hflag =>
     unfold readCsv resolveDialect
     simp only [hp, Option.isNone_some, hd0, Bool.false_or, decide_false, Bool.false_eq_true, if_false,
       Option.getD_some]
-    rw [hd, h1, h2, hl]
-    congr 1
-    simp [fieldsOf, fieldOut, List.filter_map, Function.comp_def]
+    rw [hd, h1, h2, ← hl, List.filterMap_some]
+    rfl
+
+/-- **filter_absent.**  Reading with a filter gives exactly what reading the table without the
+    rejected lines gives (the filter sees the parsed fields of every line, header included, in
+    their order in the file). -/
+theorem filter_absent (cfg : Cfg) (o : NumOracle F) (d : Char) (eol : Str) (t : Table) (p : Params)
+    (f : List Str → Bool) (lines' : List (List (Str × Bool)))
+    (hd : p.delim = d) (hh : p.header.isSome) (hwf : WellFormed d eol t)
+    (hl : lines' = t.lines.filter (fun l => f (fieldsOf p.trimWs p.keepQuotes l))) :
+    readCsv cfg o { p with hook := Hook.ofPred f } (t.render d eol) =
+    readCsv cfg o { p with hook := some } (renderFile eol (lines'.map (renderLine d))) := by
+  have hsub : ∀ l ∈ lines', l ∈ t.lines := by
+    intro l hl'; rw [hl] at hl'; exact (List.mem_filter.1 hl').1
+  apply hook_absent cfg o d eol t p (Hook.ofPred f) lines' hd hh hwf
+  · intro l hl' h
+    have := hwf.rect l (hsub l hl')
+    rw [h] at this
+    exact hwf.width (List.length_eq_zero_iff.1 this.symm)
+  · exact fun l hl' => hwf.clean l (hsub l hl')
+  · exact fun l hl' => hwf.visible l (hsub l hl')
+  · rw [hl]
+    generalize t.lines = L
+    induction L with
+    | nil => rfl
+    | cons a L ih =>
+      simp only [List.filter_cons, List.map_cons, List.filterMap_cons, Hook.ofPred]
+      cases f (fieldsOf p.trimWs p.keepQuotes a) <;> simp [ih, Hook.ofPred]
+
+/-- **filter_absent (XRFF).**  For every document and every hook: the hook is handed the values of
+    each `<instance>` in the order of the `<value>` elements – *before* the class value is moved to
+    the front –, one instance at a time, in document order; reading with the hook is reading –
+    without a hook – the document whose instances are the records the hook returns. -/
+theorem filter_absent_xrff (cfg : Cfg) (o : NumOracle F) (hook : Hook) (attrs : List XAttr)
+    (insts : List (List Str)) :
+    readXrffH cfg o hook (.doc attrs (some insts)) =
+    readXrffH cfg o some (.doc attrs (some (insts.filterMap hook))) :=
+  readXrffH_filterMap cfg o hook attrs insts
+
+/-- a filter predicate is the hook that only filters; for it the instances read are the instances
+    the predicate accepts -/
+theorem filter_pred_xrff (cfg : Cfg) (o : NumOracle F) (f : List Str → Bool) (attrs : List XAttr)
+    (insts : List (List Str)) :
+    readXrff cfg o f (.doc attrs (some insts)) = readXrffH cfg o (Hook.ofPred f) (.doc attrs (some insts)) ∧
+    readXrffH cfg o (Hook.ofPred f) (.doc attrs (some insts)) =
+      readXrffH cfg o some (.doc attrs (some (insts.filter f))) := by
+  refine ⟨readXrff_eq_H cfg o f _, ?_⟩
+  rw [readXrffH_filterMap]
+  congr 3
+  induction insts with
+  | nil => rfl
+  | cons a l ih => cases h : f a <;> simp [Hook.ofPred, h, ih]
+
+/-- **rows_faithful (XRFF) with a hook**: `rows_faithful_xrff` for the records the hook returns -/
+theorem rows_faithful_xrff_hook (cfg : Cfg) (o : NumOracle F) (hook : Hook) (h : XHeader) (hwf : h.WF)
+    (insts : List (List Str))
+    (hrows : ∀ r ∈ insts.filterMap hook, h.k < r.length ∧ RowOKx o (h.cols.map (·.dom)) (rot r h.k))
+    (hcls : Regr o (h.cols.map (·.dom)) ((insts.filterMap hook).map (fun r => rot r h.k)) ∨
+            (Classif o (h.cols.map (·.dom)) ((insts.filterMap hook).map (fun r => rot r h.k)) ∧
+             (specRows o (h.cols.map (·.dom)) [] ((insts.filterMap hook).map (fun r => rot r h.k))).1.length ≠ 1)) :
+    ∃ df, readXrffH cfg o hook (.doc h.attrs (some insts)) = .ok (df, (insts.filterMap hook).length) ∧
+      df.examples.length = (insts.filterMap hook).length ∧
+      (∀ pr ∈ (insts.filterMap hook).zip df.examples,
+        pr.2.input = inputVals o (h.cols.map (·.dom)).tail (rot pr.1 h.k).tail) ∧
+      (Regr o (h.cols.map (·.dom)) ((insts.filterMap hook).map (fun r => rot r h.k)) →
+        df.classes = [] ∧
+        ∀ pr ∈ (insts.filterMap hook).zip df.examples,
+          pr.2.output = if outDom (h.cols.map (·.dom)) = .void then .void
+            else cellVal o (outDom (h.cols.map (·.dom))) ((rot pr.1 h.k).headD [])) ∧
+      (Classif o (h.cols.map (·.dom)) ((insts.filterMap hook).map (fun r => rot r h.k)) →
+        ClassInv df.classes ∧
+        ∀ pr ∈ (insts.filterMap hook).zip df.examples, ∃ id : Nat,
+          pr.2.output = .int id ∧
+          lookup df.classes (trim ((rot pr.1 h.k).headD [])) = some id ∧
+          className df.classes id = trim ((rot pr.1 h.k).headD [])) ∧
+      skel df.cols = skel h.cols := by
+  have hT : ∀ l : List (List Str), l.filter (fun _ => true) = l := fun l => by simp
+  have := rows_faithful_xrff cfg o (fun _ => true) h hwf (insts.filterMap hook)
+    (by rw [hT]; exact hrows) (by rw [hT]; exact hcls)
+  rw [hT, readXrff_eq_H, ofPred_true, ← readXrffH_filterMap] at this
+  exact this
 
 /-! ## 4. variables -/
 
@@ -473,16 +584,16 @@ example : WellFormed ',' [] toyTable where
     simp [Table.lines, Table.rows, toyTable] at hl
     rcases hl with rfl | rfl | rfl <;> simp [renderLine, renderField, esc, isBlank, isSpace]
 
-example : Typed digitOracle (some 0) false toyTable where
+example : Typed digitOracle (some 0) false false toyTable where
   rows := by
     intro r hr
     simp [Table.rows, toyTable] at hr
     rcases hr with rfl | rfl <;>
-      simp [toyTable, fieldsOf, prep, rot, kinds, kindOf, RowOK, OutOK, InputsOK, CellOK, Stable, isNumber, trim,
+      simp [toyTable, fieldsOf, fieldOut, fieldSeen, prep, rot, kinds, kindOf, RowOK, OutOK, InputsOK, CellOK, Stable, isNumber, trim,
         isBlank, isSpace, digitOracle]
   cls := by
     right
-    simp [Table.rows, toyTable, fieldsOf, prep, rot, kinds, kindOf, Classif, outDom, specRows, outVal, encode, lookup,
+    simp [Table.rows, toyTable, fieldsOf, fieldOut, fieldSeen, prep, rot, kinds, kindOf, Classif, outDom, specRows, outVal, encode, lookup,
       isNumber, trim, isBlank, isSpace, digitOracle]
 
 /-- `x,y / 1,2 / 3,4` is an unambiguous table -/
